@@ -801,7 +801,9 @@ impl ASN1Type {
             ASN1Type::Sequence(s) | ASN1Type::Set(s) => {
                 s.members.iter().any(|m| m.ty.references_class_by_name())
             }
-            ASN1Type::SequenceOf(so) => so.element_type.references_class_by_name(),
+            ASN1Type::SequenceOf(so) | ASN1Type::SetOf(so) => {
+                so.element_type.references_class_by_name()
+            }
             ASN1Type::ObjectClassField(ocf) => {
                 matches!(
                     ocf.field_path.last(),
@@ -831,6 +833,14 @@ impl ASN1Type {
             }),
             ASN1Type::Sequence(s) => ASN1Type::Sequence(s.resolve_class_reference(tlds)),
             ASN1Type::Set(s) => ASN1Type::Set(s.resolve_class_reference(tlds)),
+            ASN1Type::SequenceOf(mut so) => {
+                so.element_type = Box::new((*so.element_type).resolve_class_reference(tlds));
+                ASN1Type::SequenceOf(so)
+            }
+            ASN1Type::SetOf(mut so) => {
+                so.element_type = Box::new((*so.element_type).resolve_class_reference(tlds));
+                ASN1Type::SetOf(so)
+            }
             ASN1Type::ObjectClassField(_) => self.reassign_type_for_ref(tlds),
             _ => self,
         }
